@@ -320,16 +320,17 @@ class Oracle:
         self.prev_strict = None
         self.prev_keys = None
         self.n_ok = self.n_raised = 0
+        self.extra_size = 0
 
     def violate(self, key, what, k):
         self.rep.violate(key, what, {'case': {**self.case, 'ops': self.case['ops'][:k + 1]}, 'at': k})
 
     def __call__(self, obj, item, before, out, exc, decl):
         n = len(obj.span)
-        k = -1 if item is None else self.k
+        k = -1 if item is None else self.k + 1
         if item is None:
-            self.k = 0
-            self.extra = obj.size - len(decl) * n
+            self.k = -1
+            self.extra = self.extra_size
         else:
             self.k += 1
             if out == 'ok':
